@@ -363,6 +363,34 @@ struct Engine {
                     if (!bad.empty())
                         Report(Fmt("interrupt:line=%d,ctx=%d,cpc=%u", line, ctx, cpc), "interrupt entry followed by " + std::string(ctx ? "retic" : "reti") + ": " + bad, w, 2, s, si);
                 }
+        // a context-switching interrupt whose handler changes every flag before it returns (modr sets R, two compares set the rest):
+        // the interrupted stream gets its own flags back
+        for (int line = 0; line < 3; ++line) {
+            VState s = states[si];
+            s.ie = 1;
+            for (int i = 0; i < 3; ++i)
+                s.im[i] = i == line, s.ip[i] = i == line, s.ic[i] = i == line;
+            s.imv = 0, s.ipv = 0;
+            s.m[0] = 0, s.br[0] = 0;
+            u32 vec = 0x0006 + 8 * line;
+            s.pc = vec - 1;
+            VState plain = s;
+            plain.ie = 0, plain.ip[line] = 0;
+            std::vector<u16> w = {0x0000, 0x0080, 0xD483, 0x4D8C, 0x45D0}; // nop | modr [r0] ; cmp b0,b1 ; cmp a0,b0 ; retic
+            VState out, ref;
+            RunResult rr, rr2;
+            if (!Exec(s, w, 5, out, rr))
+                continue;
+            Exec(plain, w, 1, ref, rr2);
+            digests.insert(Fnv(&out, sizeof(out), 477 + line));
+            ref.ie = 1;
+            std::string d = Frame(ref, out, {"pc", "sh_flags", "a1s", "b1s", "repcs"});
+            if (out.pc != vec || out.sp != s.sp || !d.empty())
+                Report(Fmt("interrupt:handler-changes-flags:line=%d", line),
+                       "interrupt entry with context store ; handler that changes the flags ; retic: " +
+                           (out.pc != vec ? Fmt("resumes at %05X", out.pc) : out.sp != s.sp ? std::string("sp not restored") : "register " + d + " differs from the uninterrupted run"),
+                       w, 5, s, si);
+        }
         // a fixed line and the vectored line requested at the same boundary: the fixed handler runs and returns, then the vectored one
         // (its address/context latch travels in the pad words, see the glue); afterwards everything is as in the uninterrupted run
         for (int line = 0; line < 3; ++line)
